@@ -6,7 +6,7 @@
    state [ss] is reached by trie.New on store [S] (scheme [sc]) followed by ANY
    history of Update / Delete / Get. *)
 From Coq Require Import Permutation.
-From GV Require Import Lib.Tactics Trie.Hex Trie.Node Trie.Ops Trie.Hash Trie.OpsProofs Trie.Commit Trie.CommitProofs Trie.CommitTracer Trie.CommitReads Trie.CommitSim Trie.CommitSimDel Trie.CommitHist Trie.CommitExact Trie.Stack Trie.Generate Trie.GenerateProofs Trie.GenerateNodes Trie.CommitStack.
+From GV Require Import Lib.Tactics Trie.Hex Trie.Node Trie.Ops Trie.Hash Trie.OpsProofs Trie.Commit Trie.CommitProofs Trie.CommitTracer Trie.CommitReads Trie.CommitSim Trie.CommitSimDel Trie.CommitHist Trie.CommitExact Trie.Stack Trie.Generate Trie.GenerateProofs Trie.GenerateNodes Trie.CommitStack Trie.CommitEvents Trie.CommitTrace.
 Local Open Scope N_scope.
 
 (* the returned root is Trie.Hash() of the in-memory trie; for a short/full root
@@ -300,6 +300,43 @@ Theorem C07_update_value_preserves_rep : forall H,
                     TOk (d, F', ev') /\ nores ev' = nores ev.
 Proof. exact sess_insert_rep. Qed.
 Print Assumptions C07_update_value_preserves_rep.
+
+(* opTracer, UNCONDITIONAL for every reachable session (event consistency of
+   trie.go's insert/delete is proved: C07_insert_events / C07_delete_events):
+   with F0 the ground trie the store holds (the trie at trie.New) and F the ground
+   trie the session represents, [gpos [] G q] = G has a short/full node at path q:
+     deletes      = node paths of F0 that are no node paths of F,
+     inserts      = node paths of F that are no node paths of F0,
+     deletedNodes = the deletes whose node was read from the store *)
+Theorem C07_tracer_reachable : forall H,
+  (forall x, length (H x) = 32%nat) ->
+  (forall e, H e = H empty_root_preimage -> e = empty_root_preimage) ->
+  forall S ss, reachable H S ss ->
+    exists F0 F root0, store_ok H S root0 F0 /\ sinv H S ss F /\
+      forall q,
+        (am_has q (tr_del (s_tr ss)) = true <-> gpos [] F0 q /\ ~ gpos [] F q) /\
+        (am_has q (tr_ins (s_tr ss)) = true <-> ~ gpos [] F0 q /\ gpos [] F q) /\
+        (In q (deleted_nodes (s_tr ss)) <->
+         gpos [] F0 q /\ ~ gpos [] F q /\ am_has q (tr_pv (s_tr ss)) = true).
+Proof. exact tracer_reachable. Qed.
+Print Assumptions C07_tracer_reachable.
+
+(* event consistency of trie.go's insert / delete on ground tries: the events are
+   at paths below the call path, every onInsert is at a path holding no node, every
+   onDelete at a path holding one, and afterwards the node paths are exactly those
+   of the result ([econs]); the runs on partially loaded tries emit the same
+   opTracer events (C07_insert_preserves_rep, nores) *)
+Theorem C07_insert_events : forall R fu G p key v d G' ev,
+  insert R fu G p key (NValue v) = TOk (d, G', ev) -> wfpos G key ->
+  econs p G G' ev /\ (d = false -> ev = []).
+Proof. exact insert_econs. Qed.
+Print Assumptions C07_insert_events.
+
+Theorem C07_delete_events : forall R fu G p key d G' ev,
+  delete R fu G p key = TOk (d, G', ev) -> wfpos G key -> (length key < fu)%nat ->
+  econs p G G' ev /\ (d = false -> ev = []).
+Proof. exact delete_econs. Qed.
+Print Assumptions C07_delete_events.
 
 (* the hypotheses are met: a two-generation history over a path-scheme store whose
    second commit returns deletions with previous values, and whose events are
